@@ -577,3 +577,7 @@ mod tests {
         assert!(ecn_counts.as_option().is_some());
     }
 }
+
+#[cfg(all(aws_s2n_quic_verif, test))]
+#[path = "/verif/harness/core/frame_ack.rs"]
+mod verif;
